@@ -147,6 +147,8 @@ class PE:
             for f in (rc or {}).get("fields", []):
                 if f["n"] == lv["f"]:
                     off = f["off"] // 8
+            if off is None and lv.get("off") is not None:
+                off = lv["off"] // 8          # anonymous / system record: the offset the front end computed
             if off is None:
                 raise r_mpt.Unknown()
             base = rec(lv["b"]) if lv.get("arrow") else self._addr(strip_casts(lv["b"]), rec)
@@ -207,6 +209,8 @@ class PE:
         """is the value of e (partly) determined by the binding?  A value read from memory through a bound pointer is
         not: only the bound lvalues themselves, and calls that receive them, count."""
         k = e.get("k")
+        if k == "lazy" and e.get("lz") is not None:
+            return self.depends(e["lz"], bind)       # `c ? a : b`, `a && b`: the operands live in other blocks
         if k in ("ref", "mem", "sub", "un", "call") and key(e) in bind:
             return True
         if k == "call" and e.get("fn") in self.call_default:
@@ -273,6 +277,17 @@ class PE:
             return [(None, not self.depends(e, bind))]
 
     # ---- statement effects
+    @staticmethod
+    def _invalidate(nb, lk):
+        """the lvalue `lk` changes: whatever is known about lvalues that are *addressed through* it (a[lk], p[lk].f)
+        no longer describes the same object"""
+        import re
+        pat = re.compile(r"(?<![\w>.])" + re.escape(lk) + r"(?![\w])")
+        for kk in [kk for kk in nb if kk != lk and lk in kk]:
+            # only uses as (part of) a subscript count: p[lk], p[(lk+1)].f
+            if any(kk.count("[", 0, m.start()) > kk.count("]", 0, m.start()) for m in pat.finditer(kk)):
+                del nb[kk]
+
     def _assign(self, lhs, rhs, bind, depth):
         """returns list of (bind', sure)"""
         l0 = strip_casts(lhs)
@@ -290,6 +305,8 @@ class PE:
                 # (re-assigning the value it already has keeps the knowledge)
                 for kk in [kk for kk in nb if kk.startswith(base)]:
                     del nb[kk]
+            if not (v is not None and bind.get(lk) == v):
+                self._invalidate(nb, lk)
             if dep:
                 nb[lk] = v if v is not None else UNSURE
             else:
@@ -309,6 +326,7 @@ class PE:
                 lk = key(strip_casts(x["e"]))
                 if lk in nb:
                     nb = dict(nb) if nb is b else nb
+                    self._invalidate(nb, lk)
                     if isinstance(nb[lk], int):
                         es = 1
                         if "t" in x["e"] and self.u.type(x["e"]["t"])["k"] == "ptr":
@@ -356,6 +374,7 @@ class PE:
                 elif k == "bin" and e["op"].endswith("=") and e["op"] not in ("==", "!=", "<=", ">="):
                     nb = dict(b)
                     lk = key(strip_casts(e["x"]))
+                    self._invalidate(nb, lk)
                     if lk in nb or self.depends(e["y"], b):
                         # x op= y  evaluated as  x op y  when both sides are known
                         try:
@@ -376,6 +395,7 @@ class PE:
                 elif k == "un" and ("++" in e["op"] or "--" in e["op"]):
                     nb = dict(b)
                     lk = key(strip_casts(e["e"]))
+                    self._invalidate(nb, lk)
                     if lk in nb:
                         if isinstance(nb[lk], int):
                             es = 1
